@@ -14,6 +14,7 @@ class HistoryProp(Prop):
     min_decided = 3
     shrink_budget = 150
     skip_undecided = False       # only for histories whose queries are side-effect free
+    track_fresh = False          # C13: unbound variables in answers must be new objects at every use
 
     def selftest(self, tier):
         self._tier = tier
@@ -51,7 +52,7 @@ class HistoryProp(Prop):
 
     def decide(self, case):
         ops = case['ops']
-        n, robs, iobs, failure, ref = H.run_history(ops, self.ref_steps, skip_undecided=self.skip_undecided)
+        n, robs, iobs, failure, ref = H.run_history(ops, self.ref_steps, skip_undecided=self.skip_undecided, track_fresh=self.track_fresh)
         if failure is not None:
             kind, i, op, r, o = failure
             return FAIL(kind, {'history': [H.show_op(x) for x in ops[:i + 1]], 'failing_op': H.show_op(op),
